@@ -60,6 +60,73 @@ theorem posOf_strict_mono (inp : Bytes) (i : Nat) (h : i + 1 ≤ inp.length) : p
   · right
     exact ⟨(lineOf_cons_ne _ _ hlf).symm, by rw [colOf_cons_ne _ _ hlf]; omega⟩
 
+theorem posLt_trans {p q r : Nat × Nat} (h1 : posLt p q) (h2 : posLt q r) : posLt p r := by
+  unfold posLt at *
+  omega
+
+theorem posLt_irrefl (p : Nat × Nat) : ¬ posLt p p := by unfold posLt; omega
+
+/-- a later byte has a later position -/
+theorem posOf_lt (inp : Bytes) (i j : Nat) (hij : i < j) (hj : j ≤ inp.length) : posLt (posOf inp i) (posOf inp j) := by
+  obtain ⟨k, rfl⟩ : ∃ k, j = i + 1 + k := ⟨j - i - 1, by omega⟩
+  induction k with
+  | zero => exact posOf_strict_mono inp i hj
+  | succ k ih =>
+    exact posLt_trans (ih (by omega) (by omega)) (posOf_strict_mono inp (i + 1 + k) (by omega))
+
+/-- `Position.Contains` is "not before the start and not after the end" in the lexicographic
+    order of (line, column) -/
+theorem contains_iff_between (p : Pos) (l c : Nat) :
+    p.contains l c = true ↔ ¬ posLt (l, c) (p.startLine, p.startCol) ∧ ¬ posLt (p.endLine, p.endCol) (l, c) := by
+  unfold Pos.contains posLt
+  by_cases h1 : l < p.startLine
+  · simp [h1]
+  · by_cases h2 : l > p.endLine
+    · simp [h2]
+    · simp only [h1, h2, decide_false, Bool.or_self, Bool.false_eq_true, if_false]
+      by_cases h3 : l = p.startLine
+      · by_cases h4 : c < p.startCol
+        · simp [h3, h4]
+        · by_cases h5 : l = p.endLine
+          · by_cases h6 : c > p.endCol
+            · simp [h3, h4, ← h5, h6]
+            · simp [h3, h4, ← h5, h6]
+          · simp [h3, h4, h5]; omega
+      · by_cases h5 : l = p.endLine
+        · by_cases h6 : c > p.endCol
+          · simp [h3, h5, h6]
+          · simp [h3, h5, h6]; omega
+        · simp [h3, h5]; omega
+
+/-- **a cursor lies in a token's range exactly when the token covers that byte**: for a token
+    that covers the bytes `[a, a + n)`, `Position.Contains` accepts the position of byte `i` iff
+    `a ≤ i < a + n`.  With `tokens_tile_source` (disjoint ranges in source order) a cursor on a
+    byte is inside at most one token, the one covering the byte. -/
+theorem contains_iff_covered (inp : Bytes) (t : Token) (a n : Nat) (hc : Covers inp t a n) (i : Nat) (hi : i < inp.length) :
+    t.pos.contains (posOf inp i).1 (posOf inp i).2 = true ↔ a ≤ i ∧ i < a + n := by
+  rw [contains_iff_between, hc.start, hc.stop]
+  have hn := hc.n_pos
+  have hle := hc.le
+  constructor
+  · intro ⟨h1, h2⟩
+    constructor
+    · apply Classical.byContradiction; intro hlt
+      exact h1 (posOf_lt inp i a (by omega) (by omega))
+    · apply Classical.byContradiction; intro hge
+      exact h2 (posOf_lt inp (a + n - 1) i (by omega) (by omega))
+  · intro ⟨h1, h2⟩
+    constructor
+    · intro hlt
+      rcases Nat.lt_or_ge a i with h | h
+      · exact posLt_irrefl _ (posLt_trans hlt (posOf_lt inp a i h (by omega)))
+      · have : i = a := by omega
+        rw [this] at hlt; exact posLt_irrefl _ hlt
+    · intro hlt
+      rcases Nat.lt_or_ge i (a + n - 1) with h | h
+      · exact posLt_irrefl _ (posLt_trans hlt (posOf_lt inp i (a + n - 1) h (by omega)))
+      · have : i = a + n - 1 := by omega
+        rw [this] at hlt; exact posLt_irrefl _ hlt
+
 /-! non-vacuity: a concrete input with multi-line text, a string with a newline, a comment -/
 
 example : (tokenize (b "a\n{{ \"x\ny\" }}{{-- c --}}z")).isSome = true := by decide
